@@ -148,6 +148,12 @@ func TransferCorpus() []Conv {
 		}
 		// size limit: within / over
 		out = append(out, newConv("data-limit-within", mode, 40).envelope().data([]byte("0123456789\r\n0123456789\r\n.\r\n")).cmd("NOOP").done())
+		// a message that fits the size limit exactly
+		out = append(out, newConv("data-limit-exact", mode, 24).envelope().data([]byte("0123456789\r\n0123456789\r\n.\r\n")).cmd("NOOP").done())
+		out = append(out, newConv("data-limit-exact-dots", mode, 9).envelope().data([]byte("..a\r\n..bc\r\n.\r\n")).cmd("NOOP").done())
+		// a LAST chunk whose declared size is at the top of the 64-bit range (after an ordinary chunk, and as the only chunk)
+		out = append(out, newConv("bdat-huge-last", mode, 0).envelope().bdat([][]byte{[]byte("first part")}, true).raw("BDAT 18446744073709551615 LAST\r\n", 1).cmd("NOOP").done())
+		out = append(out, newConv("bdat-2^63-last", mode, 1000).envelope().bdat([][]byte{[]byte("first part")}, true).raw("BDAT 9223372036854775808 LAST\r\n", 1).cmd("NOOP").done())
 		out = append(out, newConv("data-two-messages", mode, 0).envelope().data([]byte("one\r\n.\r\n")).envelope().data([]byte("two\r\n..\r\n.\r\n")).cmd("QUIT").done())
 		bin := []byte("\r\n.\r\nQUIT\r\n\x00\xff")
 		out = append(out, newConv("bdat-1", mode, 0).envelope().bdat([][]byte{bin}, false).cmd("NOOP").cmd("QUIT").done())
